@@ -34,7 +34,7 @@ ASSUMPTIONS = ["six 1.17 shim", "consonance randint(float) coerced", "an injecte
                "inside their own toLower/receive calls"]
 BUDGET = {"quick": (624, 170), "thorough": (100000, 2700)}
 FAULTS = ["layer_exception_down", "layer_exception_up", "natural_down", "natural_up"]
-PROBES = ["kept_until_session_ready", "reported_to_caller", "reported_by_dispatcher_close", "reported_to_receive_caller", "followup_same_task", "followup_other_task", "reconnected_after_fault",
+PROBES = ["reported_to_caller", "reported_by_dispatcher_close", "reported_to_receive_caller", "followup_same_task", "followup_other_task", "reconnected_after_fault",
           "locks_free_after_fault"]
 SHRINK = []
 NATURAL = [("down", "nonstring_attribute"), ("down", "oversized_frame"), ("down", "frame_exactly_at_limit"), ("down", "session_not_ready"),
